@@ -193,6 +193,30 @@ def run_history(rep, case):
         shutil.rmtree(ctl, ignore_errors=True)
 
 
+def mainscript_case(rep, backend, seed):
+    """The same kind of history over task types defined in the running script (__main__; __mp_main__ in a
+    spawned worker), with the model inside the script."""
+    from vlab.mainscript_run import run_mainscript
+    wit = {'mainscript': [backend, seed]}
+    st, x = run_mainscript(backend, seed)
+    if st == 'timeout':
+        rep.inconclusive(f'main-script history ({backend}, seed {seed}): timed out', wit)
+        return
+    if st == 'failed':
+        rep.violation('script-tasks-run-failed', f'main-script history ({backend}): the script failed: {x}', wit)
+        return
+    rep.count('mainscript_histories')
+    rep.count('mainscript_is_cached_checks', x['obs']['is_cached_checks'])
+    rep.seen('storage_x_backend', f'mainscript/{backend}')
+    ops = x['obs']['ops']
+    rep.case(['mainscript', backend, seed], sum(1 for o in ops if o[0] == 'run') >= 2)
+    seen = set()
+    for key, msg in x['bad']:
+        if key != 'worker-key-differs' and key not in seen:
+            seen.add(key)
+            rep.violation(key, f'task types defined in the main script ({backend}): {msg}', wit)
+
+
 def run_shard(rep):
     import json
     from vlab.dagcommon import scenario_rng
@@ -201,7 +225,10 @@ def run_shard(rep):
     rep.require('is_cached_checks', 2000)
     rep.require('cached_tasks_checks', 500)
     rep.require('op_uncache', 300)
+    rep.require('mainscript_histories', 12)
     rep.require('runs_with_failing_tasks', 100)
+    for r in range(1 if rep.tier == 'quick' else 4):
+        mainscript_case(rep, ['spawn', 'fork', 'serial'][(rep.shard + r) % 3], rep.seed * 1000 + rep.shard * 10 + r)
     for j in range(rep.shard, cfg['n'], rep.nshards):
         if rep.expired():
             rep.count('skipped_for_time')
@@ -236,5 +263,8 @@ def run_shard(rep):
 def replay(rep, wit):
     rep.case('a', True)
     rep.case('b', True)
+    if 'mainscript' in wit['witness']:
+        mainscript_case(rep, *wit['witness']['mainscript'])
+        return
     for key, msg in run_history(rep, wit['witness']['case']):
         rep.violation(key, msg, wit['witness'])
